@@ -1,4 +1,5 @@
 import SimbodyProofs.ForceLaws_lemmas
+import SimbodyModel.Gen.ForceParams
 
 /-!
 # C38 — non-contact force elements follow their documented laws
@@ -208,9 +209,11 @@ theorem gravity_pe_eq_doc (d : V3 K) (g z : K) (bodies : List (GBody K)) :
     · simp only [Pose.apply, dot, smul, V3.add_x, V3.add_y, V3.add_z, V3.neg_x, V3.neg_y, V3.neg_z]; ring
 
 /-- an excluded body feels nothing and contributes no energy -/
-theorem gravity_excluded (d : V3 K) (g : K) (b : GBody K) (hb : b.immune = true) :
-    gravityForce d g [b] = [SpF.zero] := by
-  unfold gravityForce; split_ifs <;> simp [hb]
+theorem gravity_excluded (d : V3 K) (g z : K) (b : GBody K) (hb : b.immune = true) :
+    gravityForce d g [b] = [SpF.zero] ∧ gravityPE d g z [b] = 0 := by
+  constructor
+  · unfold gravityForce; split_ifs <;> simp [hb]
+  · unfold gravityPE; split_ifs <;> simp [hb]
 end ordered
 
 /-! ### linear bushing: documented generalized forces, energy, dissipation rate -/
@@ -258,5 +261,38 @@ theorem param_change_stale_without_table {P F : Type} (calcF : P → F) (newPara
 
 example : (realizeDyn true (fun k : Int => -k * 3) 10 (setParams true ⟨some (-3)⟩)).1 = -30 := by decide
 example : (realizeDyn true (fun k : Int => -k * 3) 10 (setParams false ⟨some (-3)⟩)).1 = -3 := by decide
+
+/-! ### the cache condition instantiated on the table extracted from the current source
+
+`SimbodyModel/Gen/ForceParams.lean` is regenerated on every run (translator `checks/C16.py: gen_force_params`, also run by
+`checks/C38.py`) from `ForceImpl.h`, `Force*.cpp`, …: per `ForceImpl` subclass the value of `dependsOnlyOnPositions()` and the
+`Stage` of every `allocateDiscreteVariable` (0..10 = Empty..Infinity, Position = 5). -/
+
+/-- a row satisfies the table condition: a position-only (cached) element has no parameter variable whose write leaves
+Position valid -/
+def rowOK (r : C16.Gen.FClass) : Bool :=
+  match r.posOnly with
+  | some true => r.paramStages.all (fun g => decide (g ≤ 5))
+  | _ => true
+
+/-- every built-in force class of the current source satisfies the table condition (this is what failed for
+`MobilityLinearSpringImpl` on the pinned tree: `posOnly = true`, parameter stage 7 — finding F4) -/
+theorem param_table_ok : C16.Gen.table.all rowOK = true := by decide
+
+/-- **parameter changes take effect at the next realization, for every built-in force class**: for each row of the
+extracted table whose caching flag is known (all but `Force::Custom`, which delegates to user code), and each of its
+parameter variables (allocation stage `g`), a write (which invalidates stage `g` and above, hence Position iff `g ≤ 5`)
+followed by a Dynamics realization applies `calcF newParams`, whatever the cache held -/
+theorem param_change_effective_all_classes (r : C16.Gen.FClass) (hr : r ∈ C16.Gen.table) (po : Bool) (hpo : r.posOnly = some po)
+    (g : Nat) (hg : g ∈ r.paramStages) {P F : Type} (calcF : P → F) (newParams : P) (c : ElemCache F) :
+    (realizeDyn po calcF newParams (setParams (decide (g ≤ 5)) c)).1 = calcF newParams := by
+  apply param_change_effective_next_realize
+  intro hpo1
+  subst hpo1
+  have hall := param_table_ok
+  rw [List.all_eq_true] at hall
+  have hrow := hall r hr
+  simp only [rowOK, hpo, List.all_eq_true] at hrow
+  exact hrow g hg
 
 end ForceLaws
